@@ -22,28 +22,33 @@ FirstDiff(a, b, fields, i) ==
   IF i > Len(fields) THEN ""
   ELSE IF a[fields[i]] # b[fields[i]] THEN fields[i] ELSE FirstDiff(a, b, fields, i + 1)
 Hdr(p) == [f \in {HeaderFields[i] : i \in 1..Len(HeaderFields)} |-> p[f]]
+\* projections recorded from the real code carry nexts_raw (length of the exported Extensions slice);
+\* values built by the specification do not: Core strips it, RawExtsOk states what it must be
+Core(p) == [f \in (DOMAIN p) \ {"nexts_raw"} |-> p[f]]
+RawExtsOk(p) == p.nexts_raw = (IF p.x THEN Len(p.exts) ELSE 0)
 
 -----------------------------------------------------------------------------
 (* C01: Marshal then Unmarshal is the identity on well-formed packets.      *)
 C01Reason(e) ==
-  IF e.in # e.want THEN "harness_mismatch"
+  IF Core(e.in) # e.want THEN "harness_mismatch"
   ELSE IF ~WellFormed(e.in) THEN "harness_not_wellformed"
   ELSE IF e.mres # "ok" THEN "marshal_" \o e.mres
   ELSE IF e.mlen # e.msize THEN "marshal_size_mismatch"
   ELSE IF e.ures # "ok" THEN "unmarshal_rejects_own_output"
-  ELSE IF e.out # e.in THEN "field_" \o FirstDiff(e.out, e.in, PacketFields, 1)
+  ELSE IF Core(e.out) # Core(e.in) THEN "field_" \o FirstDiff(e.out, e.in, PacketFields, 1)
+  ELSE IF ~RawExtsOk(e.out) THEN "field_extensions_slice"
   ELSE IF e.hmres # "ok" THEN "header_marshal_" \o e.hmres
   ELSE IF e.hmlen # e.hmsize THEN "header_marshal_size_mismatch"
   ELSE IF e.hures # "ok" THEN "header_unmarshal_rejects_own_output"
   ELSE IF e.hn # e.hmsize THEN "header_reported_length"
-  ELSE IF e.hout # Hdr(e.in) THEN "header_field_" \o FirstDiff(e.hout, Hdr(e.in), HeaderFields, 1)
+  ELSE IF Core(e.hout) # Hdr(e.in) THEN "header_field_" \o FirstDiff(e.hout, Hdr(e.in), HeaderFields, 1)
   ELSE ""
 
 -----------------------------------------------------------------------------
 (* C04: MarshalTo(dst). The state holds Marshal()'s own bytes (the statement *)
 (* compares with Marshal, not with a reference encoder).                    *)
 C04MarshalReason(e) ==
-  IF e.in # e.want THEN "harness_mismatch"
+  IF Core(e.in) # e.want THEN "harness_mismatch"
   ELSE IF ~WellFormed(e.in) THEN "harness_not_wellformed"
   ELSE IF e.res # "ok" \/ e.hres # "ok" THEN "marshal_failed"
   ELSE IF Len(e.bytes) # e.size \/ Len(e.hbytes) # e.hsize THEN "marshal_size_mismatch"
@@ -66,7 +71,7 @@ C04ToReason(e, s) ==
 (* C20: Clone gives an equal value; afterwards the two are independent.     *)
 C20CloneReason(e) ==
   IF e.res # "ok" THEN "clone_" \o e.res
-  ELSE IF e.orig.proj # e.want THEN "harness_mismatch"
+  ELSE IF Core(e.orig.proj) # e.want THEN "harness_mismatch"
   ELSE IF e.clone.proj # e.orig.proj THEN "clone_field_" \o FirstDiff(e.clone.proj, e.orig.proj, PacketFields, 1)
   ELSE IF e.clone # e.orig THEN "clone_observation_differs"
   ELSE IF e.hclone.proj # e.horig.proj THEN "hclone_field_" \o FirstDiff(e.hclone.proj, e.horig.proj, HeaderFields, 1)
@@ -102,11 +107,12 @@ C02Reason(e) ==
   ELSE IF f.res = "ok" /\ hf.n + Len(f.obs.payload) + f.obs.padsize # Len(b) THEN "length_equation"
   ELSE IF f.res = "ok" /\ f.obs.payload # Sub(b, hf.n, hf.n + Len(f.obs.payload)) THEN "payload_not_input_bytes"
   ELSE IF f.res = "ok" /\ ~ExtsAreInputBytes(b, f.obs) THEN "ext_value_not_input_bytes"
+  ELSE IF f.res = "ok" /\ ~RawExtsOk(f.obs) THEN "extensions_slice_length"
   ELSE IF e.used.res # f.res THEN "reuse_outcome_differs"
-  ELSE IF f.res = "ok" /\ e.used.obs # f.obs THEN "reuse_field_" \o FirstDiff(e.used.obs, f.obs, PacketFields, 1)
+  ELSE IF f.res = "ok" /\ e.used.obs # f.obs THEN "reuse_field_" \o FirstDiff(e.used.obs, f.obs, PacketFields \o <<"nexts_raw">>, 1)
   ELSE IF e.hused.res # hf.res THEN "header_reuse_outcome_differs"
   ELSE IF hf.res = "ok" /\ e.hused.n # hf.n THEN "header_reuse_length_differs"
-  ELSE IF hf.res = "ok" /\ e.hused.obs # hf.obs THEN "header_reuse_field_" \o FirstDiff(e.hused.obs, hf.obs, HeaderFields, 1)
+  ELSE IF hf.res = "ok" /\ e.hused.obs # hf.obs THEN "header_reuse_field_" \o FirstDiff(e.hused.obs, hf.obs, HeaderFields \o <<"nexts_raw">>, 1)
   ELSE ""
 
 -----------------------------------------------------------------------------
@@ -127,10 +133,10 @@ C03ImageReason(e) ==
   IF ~(LET r == Parse(e.bytes) IN r.ok /\ r.p = e.want /\ r.n = e.wantn) THEN "oracle_disagrees_with_case"
   ELSE IF AnyPanic(e) THEN "panic"
   ELSE IF f.res # "ok" THEN "wellformed_image_rejected"
-  ELSE IF f.obs # e.want THEN "decoded_field_" \o FirstDiff(f.obs, e.want, PacketFields, 1)
+  ELSE IF Core(f.obs) # e.want THEN "decoded_field_" \o FirstDiff(f.obs, e.want, PacketFields, 1)
   ELSE IF hf.res # "ok" THEN "wellformed_image_rejected_by_header"
   ELSE IF hf.n # e.wantn THEN "payload_offset"
-  ELSE IF hf.obs # Hdr(e.want) THEN "header_decoded_field_" \o FirstDiff(hf.obs, Hdr(e.want), HeaderFields, 1)
+  ELSE IF Core(hf.obs) # Hdr(e.want) THEN "header_decoded_field_" \o FirstDiff(hf.obs, Hdr(e.want), HeaderFields, 1)
   ELSE ReencodeReason(e)
 C03BytesReason(e) == IF AnyPanic(e) THEN "panic" ELSE ReencodeReason(e)
 
